@@ -10,7 +10,7 @@ from vlib.reach import Reach, unreached, summary
 ID = 'C06'
 LEVEL = 'fault_enumeration'
 LEVEL_TEXT = ('Fault enumeration: for every generated file, EVERY cut offset from 4 to the file length is applied and the truncated copy '
-              'is read eagerly and lazily (a third of the files also with memmap_dir), with an explicit next-segment offset and with the 0xFFFF... marker in the last lead-in. The '
+              'is read eagerly and lazily (a third of the files also with memmap_dir, a quarter also by path with the intact index file beside the cut data file), with an explicit next-segment offset and with the 0xFFFF... marker in the last lead-in. The '
               'oracle derives from the model and the encoder layout: no exception, every channel a prefix of its complete values, at '
               'least all values of segments wholly before the cut, len(channel) == values returned, lazy == eager, and '
               'file_status.incomplete_final_segment exactly as the layout dictates. DAQmx files are cut the same way (complete rows).')
@@ -23,7 +23,7 @@ RULE = ('files of ~150-1500 bytes from vlib.model.gen_file (contiguous, interlea
 ASSUMPTIONS = ['marker variant: strings only in single-chunk last segments (as the statement restricts)',
                'expected status: explicit offsets -> incomplete iff data_start <= cut < end of a segment; marker -> iff the last '
                "segment's metadata is complete"]
-REQUIRED = ['memmap_reads', 'tall_files', 'long_files', 'cuts', 'cuts_in_raw_data', 'cuts_in_metadata', 'cuts_in_lead_in', 'status_checked', 'lazy_eager_compared', 'prefix_checked',
+REQUIRED = ['reads_with_intact_index', 'memmap_reads', 'tall_files', 'long_files', 'cuts', 'cuts_in_raw_data', 'cuts_in_metadata', 'cuts_in_lead_in', 'status_checked', 'lazy_eager_compared', 'prefix_checked',
             'variant:explicit', 'variant:marker', 'cuts_checked']
 N = {'quick': 130, 'thorough': 16000}
 NDAQ = {'quick': 60, 'thorough': 6000}
@@ -50,6 +50,8 @@ def shard_setup(ctx):
     ctx.reach.start()
     ctx.tmp = util.TempDir('c06')
     ctx.tmpdir = ctx.tmp.__enter__()
+    import os
+    ctx.dpath = os.path.join(ctx.tmpdir, 'cut%d.tdms' % os.getpid())
 
 
 def shard_teardown(ctx):
@@ -70,8 +72,8 @@ def build(case):
         chans = [('g', 'c%d' % i, types[i], n if inter else rng.choice([n, rng.randint(20, 60)]), []) for i in range(nch)]
         segs = M.build_file(rng, chans, nseg=rng.randint(1, 2), nchunks=(rng.randint(1, 2),), inter=inter, endian=rng.choice('<>'),
                             continuation=rng.choice(['same', 'none']))
-        blob, _, lay = M.encode_file(segs, marker_last=case['marker'])
-        return segs, blob, lay, rng
+        blob, idx_, lay = M.encode_file(segs, marker_last=case['marker'])
+        return segs, blob, lay, rng, idx_
     while True:
         segs = M.gen_file(rng, max_segs=4, max_chans=4, lens=(0, 1, 2, 3, 5), chunks=(1, 2, 3), p_props=0.15, p_pad=0.1,
                           ts_safe=True)
@@ -79,9 +81,9 @@ def build(case):
             last = segs[-1]
             if any(ix[0] == 'str' for _, ix in last.data_objects()) and len(last.chunks) > 1:
                 continue
-        blob, _, lay = M.encode_file(segs, marker_last=case['marker'])
+        blob, idx_, lay = M.encode_file(segs, marker_last=case['marker'])
         if 100 <= len(blob) <= 1600 and any(s.chunks for s in segs):
-            return segs, blob, lay, rng
+            return segs, blob, lay, rng, idx_
 
 
 def observe(tf):
@@ -112,10 +114,10 @@ def run_case(case, ctx):
         from checks.c05 import long_file
         rng = random.Random('c06l/%d' % case['s'])
         segs = long_file(rng)
-        blob, _, lay = M.encode_file(segs)
+        blob, index_bytes, lay = M.encode_file(segs)
         ctx.count('long_files')
     else:
-        segs, blob, lay, rng = build(case)
+        segs, blob, lay, rng, index_bytes = build(case)
     variant = 'marker' if case['marker'] else 'explicit'
     ctx.count('variant:' + variant)
     exp = M.Expected(segs)
@@ -166,9 +168,23 @@ def run_case(case, ctx):
         shape = segshape(segs[si]) if si is not None else 'none'
         obs = {}
         modes = ('eager', 'lazy', 'eager-memmap', 'lazy-memmap') if case['s'] % 3 == 0 else ('eager', 'lazy')
+        if case['s'] % 4 == 1 and case['fam'] != 'long':
+            # the data file was cut by the crash, its index file (written segment by segment before the data) is intact
+            modes = ('eager', 'lazy', 'eager-path+index', 'lazy-path+index')
+            util.write_file(ctx.dpath, blob[:cut])
+            util.write_file(ctx.dpath + '_index', index_bytes)
         for mode in modes:
             try:
-                if mode == 'eager-memmap':
+                if mode == 'eager-path+index':
+                    tf = TdmsFile.read(ctx.dpath, raw_timestamps=True)
+                    obs[mode] = observe(tf)
+                    status = tf.file_status.incomplete_final_segment
+                    ctx.count('reads_with_intact_index')
+                elif mode == 'lazy-path+index':
+                    with TdmsFile.open(ctx.dpath, raw_timestamps=True) as tf:
+                        obs[mode] = observe(tf)
+                        status = tf.file_status.incomplete_final_segment
+                elif mode == 'eager-memmap':
                     tf = TdmsFile.read(io.BytesIO(blob[:cut]), raw_timestamps=True, memmap_dir=ctx.tmpdir)
                     obs[mode] = observe(tf)
                     status = tf.file_status.incomplete_final_segment
